@@ -55,6 +55,7 @@ def plan(tier, seed):
     for i in range(16 if tier == "quick" else 400):
         jobs.append({"k": "rand", "i": i, "seed": seed})
     jobs.append({"k": "nested", "seed": seed})
+    jobs.append({"k": "huge", "seed": seed})
     return jobs
 
 
@@ -117,6 +118,16 @@ def run_job(job, ctx):
                 if len(blocks) >= 2500:
                     flush()
         flush()
+    elif job["k"] == "huge":
+        # 70,000 distinct keys with one repetition beyond line 65,536 (of a key first seen on line 3), and the all-distinct twin
+        lines = ["k%06d" % i for i in range(70000)]
+        dup = list(lines)
+        dup[69995] = lines[2]
+        blocks = [vbatch.BBlock([("keep-unique", None)], ["a", "b"]) for _ in range(100)]
+        blocks += [vbatch.BBlock([("keep-unique", None)], dup), vbatch.BBlock([("keep-unique", None)], lines),
+                   vbatch.BBlock([("keep-unique", r"k(?P<value>\d+)")], dup)]
+        for c in vbatch.run_batch(ctx, blocks, "hash", "keep-unique", model, sig_prefix="C07", prefix="huge", nontrivial_fn=_nontrivial, sets_fn=_sets):
+            acc.add(c)
     elif job["k"] == "nested":
         # nested blocks: the inner blocks' tag lines are ordinary lines (keys) of the outer block, and each inner block is
         # judged on its own content
